@@ -44,6 +44,15 @@ impl U256 {
     }
 
     pub fn checked_shl(&self, other: &u64) -> Option<U256> {
+        // `BigUint << n` materialises all the `n` low zero bits before the width can be
+        // tested: a shift by 256 or more can only fit if the value is zero.
+        if *other >= 256 {
+            return if self.0.is_zero() {
+                Some(U256(BigUint::ZERO))
+            } else {
+                None
+            };
+        }
         let r = (&self.0).shl(other);
         (r.bits() <= 256).then_some(Self(r))
     }
